@@ -134,11 +134,12 @@ pub fn run(ctx: &mut Ctx) {
     ctx.floor("rt.parse_digitally_signed_old", 1_000);
     ctx.floor("novalue.prefix", 10_000);
     ctx.floor("novalue.curve-type", 254);
+    ctx.floor("novalue.selector", 254 * 12);
     ctx.floor("cas.cases", 3_000);
     ctx.floor("entry.parse_le", 65536 * 4);
     ctx.floor("entry.parse_be", 65536 * 4);
     ctx.floor("entry.parse", 65536 * 4);
-    ctx.floor("cas.cross", 65536 * 11);
+    ctx.floor("cas.cross", 65536 * 12 - 4096);
 
     // ------------------------------------------------ DH
     let n = ctx.tier.pick(16000, 160000);
@@ -219,6 +220,26 @@ pub fn run(ctx: &mut Ctx) {
         let t = idx as u8;
         let b = [t, 0xEE];
         type R<'a, T> = IResult<&'a [u8], T>;
+        // the content parser called directly with the curve type as its selector: only explicit-prime (1) and
+        // named-curve (3) select a form, every other selector is rejected whatever the body looks like
+        if t != 1 && t != 3 {
+            let mut rng = Rng::new(idx ^ 0x5E1);
+            let bodies: [Vec<u8>; 4] = [enc(|w| gen::ec_params(&mut rng).enc(w))[1..].to_vec(), enc(|w| AEcParams::Named(23).enc(w))[1..].to_vec(), { let mut v = vec![]; for k in 0..6u8 { v.push(k + 1); v.extend(rng.bytes(k as usize + 1)); } v.extend([9, 9, 9]); v }, rng.bytes(60)];
+            for body in bodies.iter() {
+                let sel = ECCurveType(t);
+                let rs: [R<ECParametersContent>; 3] = [ECParametersContent::parse(body, sel), ECParametersContent::parse_be(body, sel), ECParametersContent::parse_le(body, sel)];
+                for (k, r) in rs.iter().enumerate() {
+                    ctx.eval();
+                    ctx.count("novalue.selector");
+                    if r.is_ok() {
+                        ctx.violation(
+                            format!("c13:derive-entry:ECParametersContent::{}:unsupported-curve-type-accepted", ["parse", "parse_be", "parse_le"][k]),
+                            json!({"curve_type_selector": t, "body_hex": hex_short(body)}),
+                        );
+                    }
+                }
+            }
+        }
         entry3!(ctx, "ECCurveType", &b[..], 1,
             [|i| -> R<ECCurveType> { ECCurveType::parse(i) }, |i| -> R<ECCurveType> { ECCurveType::parse_be(i) }, |i| -> R<ECCurveType> { ECCurveType::parse_le(i) }],
             |v: &ECCurveType| v.0 == t);
@@ -444,11 +465,23 @@ pub fn run(ctx: &mut Ctx) {
         let mut rng = Rng::new(idx ^ 0xCA5);
         for s in 0..=255u8 {
             let h = idx as u8;
-            for (dl, tail) in [(0usize, 0usize), (3, 0), (3, 1), (511, 0), (512, 0), (513, 0), (515, 1), (600, 0), (600, 2), (1024, 0), (70, 0), (65535, 0)] {
+            for (dl, tail) in [(0usize, 0usize), (3, 0), (3, 1), (511, 0), (512, 0), (513, 0), (515, 1), (600, 0), (600, 2), (1024, 0), (70, 0), (65535, 0), (4242, 0)] {
             if dl == 65535 && s % 16 != 0 {
                 continue;
             }
-            let sg = ASig { alg: Some((h, s)), data: rng.bytes(dl) };
+            // 4242: the one signature length per algorithm pair for which the LEGACY reading of the same bytes
+            // (u16 length = hash << 8 | sign) covers exactly the rest of the input: a "self-validating" coincidence
+            let coincidence = dl == 4242;
+            let dl = if coincidence {
+                let p = ((h as usize) << 8) | s as usize;
+                if p < 2 {
+                    continue;
+                }
+                p - 2
+            } else {
+                dl
+            };
+            let sg = ASig { alg: Some((h, s)), data: if coincidence { vec![0x5a; dl] } else { rng.bytes(dl) } };
             let mut input = enc(|w| sg.enc(w));
             input.extend(rng.bytes(tail));
             // right flag
